@@ -197,6 +197,8 @@ def jsonable(x):
         return {"bytes": x.hex()}
     if isinstance(x, FuncV):
         return {"fn": x.ref, "line": x.node.lineno}
+    if isinstance(x, (PartialV, InstV)) and callable_target(x) is not None and not (isinstance(x, InstV) and (x.cls.entity is not None or "dataclass" in x.cls.flags)):
+        return {"fn": callable_ref(x), "line": callable_line(x), "via": "partial" if isinstance(x, PartialV) else f"{x.cls.name} instance"}
     if isinstance(x, Sym):
         return {"term": jsonable(x.term)}
     if isinstance(x, MissingType):
